@@ -194,6 +194,11 @@ func match(m *Matcher, l, r any) (any, bool) {
 		if r == nil {
 			return match(m, l, nil)
 		}
+	case *ast.Ident:
+		// ImportSpec.Name and BranchStmt.Label are nil pointers when absent
+		if r == nil {
+			return match(m, l, nil)
+		}
 	}
 
 	if l, ok := l.(matcher); ok {
